@@ -290,7 +290,8 @@ ep_prop("C08",
                   ep("disconnect", 600, 20000, tier, "C08"),
                   ep("limits", 300, 10000, tier, "C08"),
                   ep("timers", 300, 10000, tier, "C08"),
-                  dict(family="ep-fidelity", n=T(tier, 400, 20000), params={})],
+                  dict(family="ep-fidelity", n=T(tier, 400, 20000), params={}),
+                  dict(family="lifecycle", n=T(tier, 300, 10000), params={"sock_errors": 1, "prop": "C08"})],
     "lifecycle: random interleavings of send / disconnect / disconnect_now / drop / Server::drop / flush on 1..4 (thorough 16) clients and the server, faults on every frame type incl. blackouts, reconnects from the same address 0 ms..30 s after each kind of ending, finished clients stepped on for seconds. non-trivial: a connection reached Connect on the server and ended.",
     "Online automaton over every event returned by step(): Idle -Connect-> Up -Receive*-> Up -Disconnect|Error-> End, Idle -Error-> End, nothing after End; per client object and per address on the server (a new instance only after End; Server::drop counts as End).",
     "online event-stream automaton",
@@ -338,11 +339,15 @@ PROPS["C03"]["runs"] = lambda tier: _c03_runs(tier) + [
     dict(family="handshake", n=T(tier, 100, 3000), params={}, flavour="checked"),
     dict(family="amplify", n=T(tier, 200, 5000), params={}, flavour="checked"),
     dict(family="timers", n=T(tier, 200, 5000), params={}, flavour="checked"),
+    dict(family="lifecycle", n=T(tier, 200, 6000), params={"sock_errors": 1}),
+    dict(family="lifecycle", n=T(tier, 150, 4000), params={"sock_errors": 1}, flavour="checked"),
+    dict(family="ep-ideal", n=T(tier, 60, 2000), params={"tiny_rates": 1}),
+    dict(family="ep-ideal", n=T(tier, 60, 2000), params={"tiny_rates": 1}, flavour="checked"),
 ]
 PROPS["C03"]["rule"] += (" ep-hostile: a real Server with an honest bystander client, attacked by a raw peer that completes the handshake by hand (hostile limits incl. 0 and 2^32-1) and then sends "
                          "frames composed against the server-side connection state, plus spoofed strangers; or a real Client facing a raw hostile server. After the attack the bystander must still be "
-                         "connected and delivering, and a fresh client must connect within 30 s.")
-PROPS["C03"]["require_counters"] += ["c03_honest_bystanders_checked", "c03_post_attack_connects_checked", "c03_hostile_server_sessions"]
+                         "connected and delivering, and a fresh client must connect within 30 s. lifecycle with sock_errors: the virtual socket refuses every n-th send (n from {2, 3, 7, 20, 100}: the frame is not transmitted and uflow is told so) and fails every m-th receive call (m from {2, 3, 5, 17, 50}: the receive loop of that step ends early), as ENOBUFS / ECONNREFUSED do on a real socket. ep-ideal with tiny_rates: honest endpoints whose configured rates are legal but below one frame per second (1, 2, 22, 23, 24, 100, 1000, 1471 B/s).")
+PROPS["C03"]["require_counters"] += ["c03_honest_bystanders_checked", "c03_post_attack_connects_checked", "c03_hostile_server_sessions", "socket_send_errors_injected", "socket_recv_errors_injected"]
 _c01_runs = PROPS["C01"]["runs"]
 PROPS["C01"]["runs"] = lambda tier: _c01_runs(tier) + [ep("lifecycle", 300, 10000, tier, "C01"), ep("disconnect", 300, 10000, tier, "C01"), dict(family="ep-fidelity", n=T(tier, 300, 10000), params={})]
 PROPS["C01"]["rule"] += FID
@@ -357,3 +362,4 @@ PROPS["C11"]["require_counters"] += ["c11_established_connections_watched"]
 
 for _p in ("C05", "C08", "C19"):
     PROPS[_p]["rule"] += FID
+PROPS["C08"]["rule"] += " lifecycle with sock_errors: the same sessions while the (virtual) operating system refuses every n-th send and fails every m-th receive call; only the event-stream, payload, crash and heap oracles are applied to those runs."
